@@ -312,9 +312,6 @@ Proof.
 Qed.
 
 (* is a list of components (as the implementation returns them) exactly the partition into SCCs? *)
-Definition list_eqb (a b : list Z) : bool :=
-  Nat.eqb (length a) (length b) && forallb (fun p => Z.eqb (fst p) (snd p)) (combine a b).
-
 Definition scc_agrees (g : graph) (comps : list (list name)) : bool :=
   forallb (fun x => match filter (zmem x) comps with
                     | [c] => match scc_of g x with
